@@ -480,11 +480,34 @@ func c15Copy(c *core.Ctx) {
 	})
 	c.Case("dns-proxy/udp", func() {
 		queries := [][]byte{dnsQuery(0x1234, "example.com", 1), dnsQuery(1, "a.very.long.name.example.org", 16), dnsQuery(65535, "x", 255)}
-		for qi, q := range queries {
+		// datagram sizes around the usual buffer sizes, in both directions (EDNS0 / TCP-sized messages)
+		type dq struct {
+			q      []byte
+			ansPad int
+		}
+		var dqs []dq
+		for _, q := range queries {
+			dqs = append(dqs, dq{q, 0})
+		}
+		for _, n := range []int{500, 4084, 4085, 6000, 60000} {
+			dqs = append(dqs, dq{queries[0], n})
+		}
+		for _, n := range []int{512, 4096, 4097, 20000, 65000} {
+			q := append([]byte(nil), queries[0]...)
+			for len(q) < n {
+				q = append(q, byte('a'+len(q)%26))
+			}
+			dqs = append(dqs, dq{q, 0})
+		}
+		for qi, x := range dqs {
+			q := x.q
 			s := startProxy("dns-proxy", 53, "udp")
 			var mu sync.Mutex
 			var got [][]byte
 			answer := append(append([]byte(nil), q[:2]...), 0x81, 0x80, 0, 1, 0, 0, 0, 0, 0, 0)
+			for i := 0; i < x.ansPad; i++ {
+				answer = append(answer, byte('A'+i%26))
+			}
 			lab.OnDial(func(bc *lab.BackendConn) {
 				buf := make([]byte, 70000)
 				n, _ := bc.Backend.Read(buf)
@@ -500,13 +523,13 @@ func c15Copy(c *core.Ctx) {
 			mu.Lock()
 			g := got
 			mu.Unlock()
-			desc := fmt.Sprintf("dns-proxy datagram #%d (%d bytes)", qi, len(q))
+			desc := fmt.Sprintf("dns-proxy datagram #%d (%d bytes, answer %d bytes)", qi, len(q), len(answer))
 			if len(g) != 1 || !bytes.Equal(g[0], q) {
-				c.Violationf("C15:dns-proxy:request", "%s: backend received %d datagrams (first %x), client sent %x", desc, len(g), firstOr(g), q)
+				c.Violationf("C15:dns-proxy:request", "%s: backend received %d datagrams (first has %d bytes), client sent %d bytes", desc, len(g), len(firstOr(g)), len(q))
 			}
 			rs := d.Replies()
 			if len(rs) != 1 || !bytes.Equal(rs[0].Data, answer) || rs[0].To != "10.1.0.10:40000" {
-				c.Violationf("C15:dns-proxy:reply", "%s: client received %v, backend answered %x", desc, rs, answer)
+				c.Violationf("C15:dns-proxy:reply", "%s: client received %d datagrams (first has %d bytes), backend answered %d bytes", desc, len(rs), replyLen(rs), len(answer))
 			}
 			n := 0
 			for _, e := range allEvents() {
@@ -565,4 +588,11 @@ func runC15(c *core.Ctx) {
 	c15HTTP(c)
 	c15Copy(c)
 	c15SSH(c)
+}
+
+func replyLen(rs []lab.UDPReply) int {
+	if len(rs) == 0 {
+		return 0
+	}
+	return len(rs[0].Data)
 }
